@@ -409,6 +409,16 @@ def gen_history(rnd, length=12, with_restart=True, malformed=False, guess=True):
             reqs.append({"kind": "proper", "input": an_input()})
             nconv += 1
         elif k < 0.62 and nconv:
+            convs_ = [(j, q) for j, q in enumerate([q for q in reqs if q["kind"] in ("convert", "proper")])]
+            if convs_ and rnd.random() < 0.35:
+                # the same input again right after its confirmation, and once more under another context: nothing remembered from the
+                # first answer may survive the change of the learned counts / of the context
+                j, q = convs_[-1]
+                reqs.append({"kind": "confirm", "session": j, "cid": rnd.choice(["0", "1", "1", "2"])})
+                reqs.append(dict(q))
+                reqs.append({"kind": "convert", "input": q["input"], "context": rnd.choice(["Normal", "ForeignWord", "Numeral"])})
+                nconv += 2
+                continue
             reqs.append({"kind": "confirm", "session": rnd.randrange(nconv) if rnd.random() < 0.9 else None,
                          "cid": rnd.choice(["0", "0", "0", "0", "1", "1", "2", "7", "00", "x", "", "+0", "+1", "01", "000", " 0", "0 ", "-0", "1e0", "０"])})
         elif k < 0.8:
